@@ -21,6 +21,9 @@ def run(ctx):
         o = dict(GridSize=g, StepsPerTs=r.choice([64, 100]), rotations=0.25, outstep=r.choice([4, 8]), SavePhaseSpace=0, RenormalizeCharge=-1,
                  padding=r.choice([2.0, 8.0]))
         nbk = [3, 4, 5, 2, 3][i % 5]             # (truncating variants of the spacing arithmetic differ from rounding only for >= 3 buckets)
+        txt = (i % 7 == 3)
+        if txt:
+            nbk = 1                              # a single bunch started from a text file of particle coordinates (its own factory path to a PhaseSpace)
         cur = [round(r.loguniform(1e-4, 6e-4), 7) for _ in range(nbk)]
         if nbk >= 3 and r.chance(0.5):
             cur[r.randint(1, nbk - 2)] = 0.0
@@ -42,7 +45,12 @@ def run(ctx):
         if abs(spc - round(spc)) < 1e-3 or abs(abs(spc - round(spc)) - 0.5) < 2e-4:
             out["skip"] = "spacing too close to a rounding boundary to take sides"
             return out
+        if txt:
+            rs = np.random.RandomState(r.randint(0, 2 ** 31 - 1))
+            np.savetxt(os.path.join(d, "start.txt"), np.column_stack([rs.normal(0.2, 0.9, 20000), rs.normal(-0.1, 1.0, 20000)]), fmt="%.5f")
+            o["InitialDistFile"] = os.path.join(d, "start.txt")
         res = prog.run_inovesa("rel", dict(o, output="o.h5"), d, os.path.join(d, "xdg"), timeout=900)
+        out["txt"] = txt
         out["cmd"] = " ".join(res["argv"])
         if prog.program_outcome_key(res) or res["rc"] != 0:
             out["incon"] = "run failed: " + res["err"][-200:]
@@ -87,9 +95,12 @@ def run(ctx):
             continue
         ctx.case("prog:%s" % sorted((k, str(v)) for k, v in res["opts"].items()))
         ctx.ev("program_trains")
+        if res.get("txt"):
+            ctx.ev("program_runs_started_from_a_text_file")
         ctx.ev("program_records_compared", res["compared"])
         ctx.residual("prog.wake_vs_convolution", res.get("wake_res", 0), 1.0)
         for key, what, det in res["viol"]:
             ctx.violation(key, what, det)
         ctx.sample(dict(options=res["opts"], spacing_in_cells=res["spacing_cells"]))
     ctx.min_events["program_trains"] = max(3, n // 2)
+    ctx.min_events["program_runs_started_from_a_text_file"] = 1
